@@ -8,7 +8,7 @@ from .ctx import Ctx
 from .model import AnalysisError, FunctionInfo
 from .report import RuleResult
 from .terms import (Attr, Call, Comp, Const, DictT, Evaluator, Ext, Fmt, Ite, Loop, Op, helper_inline, Opaque, Outcome, Store, Sub, Sym, Template, Term,
-                    TupleT, alternatives, guards_repr, norm_guards, walk)
+                    TupleT, alternatives, flat_guards, guards_repr, norm_guards, walk)
 from .util import all_terms, call_name, call_recv, method_calls
 
 
@@ -113,6 +113,50 @@ def N2(ctx: Ctx) -> RuleResult:
         r.fail('HplPredicateExpression._check_expression:refs', 'the expression validator no longer runs the reference-consistency check on the reference table', c.where)
     else:
         r.ok('_check_expression -> _all_refs_same_type(_get_reference_table(expr))')
+    return r
+
+
+def N4(ctx: Ctx) -> RuleResult:
+    r = RuleResult('N4', 'the reference table of a predicate holds EVERY reference node of the expression: it is filled from a traversal that reaches all nodes (iterate(), or a work list that pushes the children of every node), each variable / accessor node is recorded, and nothing is filtered out')
+    m = ctx.model.module('hpl.ast.predicates', 'N4')
+    fi = m.functions.get('_get_reference_table')
+    if fi is None:
+        raise AnalysisError('N4', '_get_reference_table not found (anchor vanished)')
+    expr = Sym('expr', 'HplExpression')
+    outs = Evaluator(ctx.model, inline=helper_inline(('hpl.ast.predicates',), exclude=('_get_reference_table',))).run(fi, {fi.params()[0]: expr})
+    loops = [e for o in outs for e in o.effects if isinstance(e, Loop)]
+    if not loops:
+        raise AnalysisError('N4', '_get_reference_table: no traversal loop found')
+    lp = loops[0]
+    full = isinstance(lp.iter, Call) and call_name(lp.iter) == 'iterate' and call_recv(lp.iter) == expr
+    if full:
+        r.ok('filled from expr.iterate(): every node of the expression is visited')
+    elif lp.target == '<while>' and isinstance(lp.iter, TupleT) and lp.iter.items == (expr,):
+        # explicit work list: every path must push all children of the node it popped
+        for pg, flow, binds, effs in lp.paths:
+            pushes = [c for c in effs if isinstance(c, Call) and call_name(c) in ('extend', 'append', 'extendleft') and call_recv(c) == lp.iter]
+            all_children = any(any(isinstance(y, Call) and call_name(y) == 'children' for y in walk(c)) for c in pushes)
+            if not all_children:
+                r.fail('_get_reference_table:skip', f'under [{guards_repr(norm_guards(pg))[:100]}] the walk does not push the children of the node it visits: references below it (the object of an access path, ...) never reach the table', fi.where)
+        if not r.findings:
+            r.ok('work list pushing children() on every path')
+    else:
+        r.fail('_get_reference_table:walk', f'the table is not filled from a traversal of the whole expression: iterates {str(lp.iter)[:80]}', fi.where)
+    # recorded: variables and accessors, each under its printed form; no other filter
+    recorded = {'accessor': False, 'variable': False}
+    for pg, flow, binds, effs in lp.paths:
+        stores = [e for e in effs if (isinstance(e, Call) and call_name(e) in ('append', 'add')) or isinstance(e, Store)] + [c for c in effs if isinstance(c, Call) and call_name(c) == 'setdefault']
+        adds = any((isinstance(e, Call) and call_name(e) == 'append') for e in effs) or any(isinstance(x, Call) and call_name(x) == 'append' for e in effs for x in walk(e))
+        if not adds:
+            continue
+        for t, pol in flat_guards(pg):
+            for x in walk(t):
+                if isinstance(x, Attr) and x.name == 'is_accessor':
+                    recorded['accessor'] = True
+                if isinstance(x, Attr) and x.name == 'is_variable':
+                    recorded['variable'] = True
+    for k, seen in recorded.items():
+        (r.ok(f'{k} nodes are recorded') if seen else r.fail(f'_get_reference_table:{k}', f'{k} nodes are not recorded in the reference table', fi.where))
     return r
 
 
@@ -526,4 +570,4 @@ def A9(ctx: Ctx) -> RuleResult:
     raise AnalysisError('A9', 'leaf_fields: neither the recursive nor the work-list idiom')
 
 
-RULES = {'N1': N1, 'N2': N2, 'N3': N3, 'A8': A8, 'A9': A9}
+RULES = {'N1': N1, 'N2': N2, 'N3': N3, 'N4': N4, 'A8': A8, 'A9': A9}
